@@ -30,7 +30,10 @@ RULE = ("seeded HISTORIES on long-lived objects: two real StorageFarmBroker obje
         "get_servers_for_psi with both for_upload values and fresh storage indexes, Publish.update_goal) while a patched clock steps "
         "forward across every certificate expiry instant (one microsecond before, exactly at, one microsecond after, and beyond); every "
         "answer is compared with the documented predicate at the current time and with the driver; a case is one call; distinct = distinct "
-        "(driver line, clock value); non-trivial = at least two servers are connected")
+        "(driver line, clock value); non-trivial = at least two servers are connected.  Plus announcement HISTORIES through the real "
+        "StorageFarmBroker._got_announcement: the same server ids re-announce with changed certificate lists (dropped / expired / "
+        "foreign-signed / newly gained / renewed; FURL, NURLs and seed unchanged) and after every step the full order, the upload order, "
+        "every upload_permitted() and update_goal are compared with the model evaluated on each server's LATEST announcement")
 TRUSTED = ["lean/Tahoe/StorageClient/Model.lean is a hand transcription of get_servers_for_psi and update_goal (sorted() modelled as stable insertion sort)",
            "hashlib.sha1 (the model receives SHA-1(psi + permutation seed) from the harness, computed independently of hashutil.permute_server_hash)",
            "the iteration order of the frozenset of connected servers is read back from get_connected_servers() (only matters for equal sort keys)"]
@@ -331,6 +334,225 @@ def run_case(ctx, case, workdir, lines, impl, cases, canon):
     ctx.count("steps:%d" % len(case["steps"]))
 
 
+# ----------------------------------------------------------------------------- announcement histories (real _got_announcement)
+
+AH = 3600 * 10**6
+A0 = 1_700_000_000_000_000        # clock base of the announcement histories (microseconds since the epoch)
+
+
+def ann_specs(rng, what, i, n, keys, t):
+    """certificate list of a (re-)announcement of server i: specs {k, gm, for, exp}"""
+    g = lambda: rng.choice(keys) if keys else rng.randrange(5)
+    foreign = [x for x in range(5) if x not in keys] or [0]
+    valid = lambda exp: {"k": "valid", "gm": g(), "for": i, "exp": exp}
+    if what == "valid":
+        return [valid(t + rng.choice([AH, 2 * AH, 10 * AH]))]
+    if what == "none":
+        return []
+    if what == "expired":
+        return [valid(t - rng.choice([0, 1, AH]))]
+    if what == "foreign":
+        return [{"k": "valid", "gm": rng.choice(foreign), "for": i, "exp": t + AH}]
+    if what == "other-server":
+        return [{"k": "valid", "gm": g(), "for": (i + 1) % n, "exp": t + AH}] if n > 1 else []
+    if what == "tampered":
+        return [{"k": "tampered", "gm": g(), "for": i, "exp": t + AH}]
+    if what == "short":
+        return [valid(t + rng.choice([1, 5, 1000]))]
+    return [valid(t - 5), {"k": "valid", "gm": rng.choice(foreign), "for": i, "exp": t + AH}, valid(t + AH)]     # "mixed"
+
+
+def gen_ann_history(rng, fixed=None):
+    n = fixed or rng.choice([2, 3, 4, 6])
+    keys = rng.sample(range(5), rng.choice([1, 1, 2])) if (fixed or rng.random() < 0.9) else []
+    kinds = ["valid", "none", "expired", "foreign", "other-server", "tampered", "short", "mixed"]
+    t = A0
+    events = [["t", t]]
+    for i in range(n):
+        events.append(["ann", i, ann_specs(rng, ["valid", "other-server", "valid", "foreign"][i % 4] if fixed else rng.choice(kinds), i, n, keys, t), "srv%d" % i])
+    events.append(["q", rng.randbytes(16).hex()])
+    for step in range(fixed and 8 or rng.choice([3, 5, 8])):
+        if rng.random() < 0.4:
+            t += rng.choice([1, 1000, AH, AH + 1, 3 * AH])
+            events.append(["t", t])
+        i = step % n if fixed else rng.randrange(n)
+        # the same server id re-announces: certificates dropped / expired / foreign-signed / newly gained / renewed;
+        # FURL, NURLs and permutation seed never change; the nickname changes only sometimes
+        what = (["none", "valid", "expired", "other-server", "foreign", "valid", "short", "mixed"][step] if fixed else rng.choice(kinds))
+        events.append(["ann", i, ann_specs(rng, what, i, n, keys, t), "srv%d" % i if rng.random() < 0.7 else "srv%d-%d" % (i, step)])
+        events.append(["q", rng.randbytes(16).hex()])
+        if rng.random() < 0.5:
+            total = rng.choice([2, 3, 5])
+            events.append(["goal", {"total": total, "goal": [list(x) for x in sorted(set((rng.randrange(n), rng.randrange(total)) for _ in range(rng.choice([0, 1, 3]))))],
+                                    "bad": sorted(rng.sample(range(n), rng.choice([0, 0, 1])))}])
+    return {"kind": "ann-history", "gm_seeds": [("%02x" % (0x31 + j) * 32) if fixed else rng.randbytes(32).hex() for j in range(5)], "keys": keys,
+            "srv_seeds": [("%02x" % (0x71 + j) * 32) if fixed else rng.randbytes(32).hex() for j in range(n)],
+            "preferred": rng.sample(range(n), rng.choice([0, 1, 2])) if rng.random() < 0.6 else [], "events": events}
+
+
+def run_ann_history(ctx, case, workdir, lines, impl, cases, canon):
+    from twisted.application import service
+    from allmydata.crypto import ed25519
+    from allmydata.node import config_from_string
+    from allmydata.client import _valid_config
+    from allmydata.storage_client import StorageClientConfig, StorageFarmBroker
+    from allmydata.mutable.publish import Publish
+    from allmydata.mutable.common import NotEnoughServersError
+    from props import c33
+
+    class Reconnector:
+        def stopConnecting(self):
+            pass
+
+        def reset(self):
+            pass
+
+    class StandInTub(service.MultiService):
+        def connectTo(self, furl, cb):
+            return Reconnector()
+
+    gms = c33._keys(case["gm_seeds"])
+    keys = case["keys"]
+    srv_strings = [ed25519.string_from_verifying_key(pk) for (_, pk) in c33._keys(case["srv_seeds"])]
+    sids = [x[len(b"pub-"):] for x in srv_strings]
+    n = len(sids)
+    seeds = []
+    for sid in sids:
+        raw = sid[3:].decode("ascii").upper()
+        seeds.append(base64.b32decode(raw + "=" * (-len(raw) % 8)))
+    txt = "[client]\n"
+    if case["preferred"]:
+        txt += "peers.preferred = %s\n" % ", ".join(sids[i].decode("ascii") for i in case["preferred"])
+    if keys:
+        txt += "[grid_managers]\n" + "".join("gm%d = %s\n" % (g, ed25519.string_from_verifying_key(gms[g][1]).decode("ascii")) for g in keys)
+    cfg = config_from_string(os.path.join(workdir, "no-such-basedir"), "tub.port", txt, _valid_config())
+    sb = StorageFarmBroker(True, lambda overrides: StandInTub(), cfg, StorageClientConfig.from_node_config(cfg))
+    hist = []                   # every announcement so far: (server, certificate dicts)
+    latest = {}                 # server -> (certificate dicts, time of that announcement)
+    sigcache = {}
+    t = A0
+    CLOCK[0] = c33.dt_of("a%d" % t)
+
+    def cert_dicts(i, specs):
+        return c33.cert_dicts({"versions": [[specs] if j == i else [[]] for j in range(n)]}, gms, srv_strings, i, 0)
+
+    def permitted(i, when):
+        if not keys:
+            return True
+        return any(c["meta"]["intact"] and c["meta"]["signer"] in keys and c["meta"]["server"] == i and c["meta"]["exp"] > when
+                   for c in latest.get(i, ([], 0))[0])
+
+    def ever_differently(i, when):
+        """some earlier announcement of this server would give the other verdict now (the stale-announcement signature)"""
+        mine = [cs for (j, cs) in hist if j == i][:-1]
+        return any(any(c["meta"]["intact"] and c["meta"]["signer"] in keys and c["meta"]["server"] == i and c["meta"]["exp"] > when for c in cs)
+                   != permitted(i, when) for cs in mine)
+
+    def hist_line(fu, psi):
+        tk = c33.Tokeniser(gms, srv_strings, sigcache)
+        for (_, cs) in hist:
+            tk.learn(cs)
+        groups = ["S %d 1 %s %s" % (i, hashlib.sha1(psi + seeds[i]).hexdigest(), " ".join(tk.tok(c) for c in cs)) for (i, cs) in hist]
+        return " ".join(("hist %s %s %d a%d %s" % (",".join(map(str, keys)) or "-", ",".join(map(str, case["preferred"])) or "-",
+                                                   1 if fu else 0, t, " ".join(groups))).split())
+
+    for ei, ev in enumerate(case["events"]):
+        if ev[0] == "t":
+            t = ev[1]
+            CLOCK[0] = c33.dt_of("a%d" % t)
+        elif ev[0] == "ann":
+            i, specs, nick = ev[1], ev[2], ev[3]
+            cs = cert_dicts(i, specs)
+            ann = {"service-name": "storage", "anonymous-storage-FURL": FURL, "nickname": nick}
+            if cs:
+                ann["grid-manager-certificates"] = [{"certificate": bytes.fromhex(c["certificate"]).decode("utf-8"),
+                                                     "signature": b32(bytes.fromhex(c["signature"]))} for c in cs]
+            old = sb.servers.get(sids[i])
+            with contextlib.redirect_stdout(io.StringIO()):
+                sb._got_announcement(sids[i], ann)
+            srv = sb.servers[sids[i]]
+            srv._rref = object()          # as StorageFarmBroker.test_add_rref does
+            srv._is_connected = True
+            changed = (i not in latest) or ([(c["certificate"], c["signature"]) for c in latest[i][0]] != [(c["certificate"], c["signature"]) for c in cs])
+            ctx.count("ann-history:" + ("first" if old is None else "certificates-changed" if changed else "certificates-same") +
+                      ("" if old is None else ":object-replaced" if srv is not old else ":object-kept"))
+            hist.append((i, cs))
+            latest[i] = (cs, t)
+        elif ev[0] == "q":
+            psi = bytes.fromhex(ev[1])
+            tag = {"event": ei, "t": t, "psi": ev[1]}
+            for s in sb.servers.values():
+                i = sids.index(s.get_serverid())
+                got, want = s.upload_permitted(), permitted(i, t)
+                if got is not want:
+                    ctx.violation("upload_permitted() = %r although the server's latest announcement says %r at the current time" % (got, want),
+                                  dict(case, at=dict(tag, server=i)),
+                                  "upload-permitted-wrong:" + ("granted" if got else "denied") + (":stale-announcement" if ever_differently(i, t) else ""))
+            prefs = list(case["preferred"])
+            for fu in (False, True):
+                ids = [sids.index(s.get_serverid()) for s in sb.get_servers_for_psi(psi, for_upload=fu)]
+                lines.append(hist_line(fu, psi))
+                impl.append(",".join(map(str, ids)) or "-")
+                cases.append(dict(case, at=dict(tag, for_upload=fu)))
+                canon.append(False)
+                ctx.case((lines[-1], t) if len(latest) >= 2 else None)
+                ctx.count("ann-history:query:for_upload=%d" % fu)
+                eligible = [i for i in latest if (not fu or permitted(i, t))]
+                want = sorted(eligible, key=lambda i: (i not in prefs, hashlib.sha1(psi + seeds[i]).digest()))
+                extra = [i for i in ids if i not in eligible]
+                missing = [i for i in eligible if i not in ids]
+                if extra:
+                    ctx.violation("server offered%s although its latest announcement holds no currently valid certificate" % (" for upload" if fu else ""),
+                                  dict(case, at=dict(tag, for_upload=fu, server=extra[0])),
+                                  "upload-filter:unpermitted-included" + (":stale-announcement" if ever_differently(extra[0], t) else ""))
+                elif missing:
+                    ctx.violation("server whose latest announcement holds a currently valid certificate is not offered",
+                                  dict(case, at=dict(tag, for_upload=fu, server=missing[0])),
+                                  "upload-filter:permitted-dropped" + (":stale-announcement" if ever_differently(missing[0], t) else ""))
+                elif ids != want:
+                    ctx.violation("servers are not ordered preferred-first then by SHA-1(psi + seed)", dict(case, at=dict(tag, for_upload=fu)),
+                                  "order-not-preferred-then-hash")
+        else:
+            g = ev[1]
+            byidx = {sids.index(s.get_serverid()): s for s in sb.servers.values()}
+            if any(i not in byidx for (i, _) in g["goal"]) or any(i not in byidx for i in g["bad"]):
+                continue
+            psi = hashlib.sha1(b"goal%d" % ei).digest()[:16]
+            full = list(sb.get_servers_for_psi(psi))
+            p = Publish.__new__(Publish)
+            p._log_number = None
+            p._new_seqnum = 1
+            p._first_write_error = None
+            p.total_shares = g["total"]
+            p.goal = set((byidx[i], sh) for (i, sh) in g["goal"])
+            p.bad_servers = set(byidx[i] for i in g["bad"])
+            p.full_serverlist = list(full)
+            before = set(p.goal)
+            tag = dict(g, event=ei, t=t)
+            try:
+                p.update_goal()
+                out = ",".join("%d.%d" % x for x in sorted((sids.index(s.get_serverid()), sh) for (s, sh) in p.goal)) or "-"
+                for (s, sh) in p.goal - before:
+                    i = sids.index(s.get_serverid())
+                    if not permitted(i, t):
+                        ctx.violation("update_goal places a share on a server whose latest announcement holds no currently valid certificate",
+                                      dict(case, at=tag), "publish-goal:unpermitted-server" + (":stale-announcement" if ever_differently(i, t) else ""))
+            except NotEnoughServersError:
+                out = "none"
+            toks = ["%d:1:%d:0" % (sids.index(s.get_serverid()), 1 if permitted(sids.index(s.get_serverid()), t) else 0) for s in full]
+            lines.append(" ".join(("goal %d %s %s %s" % (g["total"], ",".join("%d.%d" % tuple(x) for x in g["goal"]) or "-",
+                                                          ",".join(map(str, g["bad"])) or "-", " ".join(toks))).split()))
+            impl.append(out)
+            cases.append(dict(case, at=tag))
+            canon.append(True)
+            ctx.case((lines[-1], t))
+
+
+def ann_corpus():
+    import random
+    return [gen_ann_history(random.Random("C32-ann-history-%d" % k), fixed=4) for k in range(2)]
+
+
 def corpus():
     res = []
     # peers.preferred from tahoe.cfg must move a server to the front (found 2026-09: the configured ids stayed `str`, never equal
@@ -374,14 +596,22 @@ def run(ctx):
         c.pop("at", None)
         gen = [c]
     else:
-        gen = corpus() + [gen_case(ctx.rng) for _ in range(ctx.budget(400, 8000))]
+        corpus_only = bool(os.environ.get("VERIF_CORPUS_ONLY"))
+        gen = corpus() + ann_corpus()
+        if not corpus_only:
+            gen += [gen_case(ctx.rng) for _ in range(ctx.budget(400, 8000))]
+            arng = ctx.subrng("ann-histories")
+            gen += [gen_ann_history(arng) for _ in range(ctx.budget(60, 2500))]
     lines, impl, cases, canon = [], [], [], []
     real_clock = gm_mod.current_datetime_with_zone
     # StorageFarmBroker._make_storage_server passes no now_fn: the verifiers read this module-level clock
     gm_mod.current_datetime_with_zone = lambda: CLOCK[0]
     try:
         for case in gen:
-            run_case(ctx, case, workdir, lines, impl, cases, canon)
+            if case.get("kind") == "ann-history":
+                run_ann_history(ctx, case, workdir, lines, impl, cases, canon)
+            else:
+                run_case(ctx, case, workdir, lines, impl, cases, canon)
     finally:
         gm_mod.current_datetime_with_zone = real_clock
     model = ctx.model(lines)
